@@ -69,7 +69,9 @@ class Interp:
                 except PyRaise as e:
                     outcomes.append(Outcome('raise', e.exc, self.st, getattr(e, 'frame', None), list(self.trail)))
                 except SegmentYield as e:
-                    outcomes.append(Outcome('yield', e.value, self.st, getattr(e, 'frame', None), list(self.trail)))
+                    o = Outcome('yield', e.value, self.st, getattr(e, 'frame', None), list(self.trail))
+                    o.yield_index = getattr(e, 'index', 0)
+                    outcomes.append(o)
                 except PathEnd:
                     outcomes.append(Outcome('end', None, self.st, None, list(self.trail)))
             except Infeasible:
@@ -542,6 +544,23 @@ class Interp:
     def stmt_While(self, s, fr):
         ordinal = fr.loop_ids.get(id(s), -1)
         spec = self.loop_specs.get((fr.qual, ordinal))
+        if spec is None and self.segment_mode:
+            # inside a coroutine segment a loop is simply executed: the segment ends at the next yield
+            n = 0
+            try:
+                while self.branch(self.truth(self.eval(s.test, fr))):
+                    n += 1
+                    if n > 3:
+                        raise Unsupported('loop in a segment does not reach a yield within 3 iterations')
+                    try:
+                        self.exec_block(s.body, fr)
+                    except ContinueSignal:
+                        continue
+                else:
+                    self.exec_block(s.orelse, fr)
+            except BreakSignal:
+                pass
+            return
         if spec is None:
             raise Unsupported('while loop %s#%d needs an invariant' % (fr.qual, ordinal))
         return spec.run_while(self, s, fr)
@@ -1135,6 +1154,8 @@ class Interp:
     def do_yield(self, v, node, fr):
         h = self.spec_funcs.get('yield')
         if h is None:
+            if self.segment_mode:
+                return self.default_yield(v, node, fr)
             raise Unsupported('yield/await without a segment handler')
         return h(self, v, node, fr)
 
@@ -1777,3 +1798,168 @@ BUILTINS = {
     'ValueError': None, 'KeyError': None, 'IndexError': None, 'TypeError': None,
     'RuntimeError': None, 'StopIteration': None, 'Exception': None, 'AssertionError': None,
 }
+
+
+# ---------------------------------------------------------------- coroutine segments
+def find_yields(fnode):
+    """yield / await expressions of a function in source order (nested function bodies excluded)."""
+    out = []
+
+    class V(ast.NodeVisitor):
+        def visit_Yield(self, n):
+            self.generic_visit(n)
+            out.append(n)
+
+        def visit_Await(self, n):
+            self.generic_visit(n)
+            out.append(n)
+
+        def visit_FunctionDef(self, n):
+            if n is fnode:
+                self.generic_visit(n)
+
+        visit_AsyncFunctionDef = visit_FunctionDef
+
+        def visit_Lambda(self, n):
+            pass
+    V().visit(fnode)
+    return out
+
+
+def _contains(node, target):
+    for n in ast.walk(node):
+        if n is target:
+            return True
+    return False
+
+
+class Resume:
+    """How a suspended coroutine is resumed: with a value sent in, or with an exception thrown in."""
+
+    def __init__(self, value=None, exc=None):
+        self.value = value
+        self.exc = exc
+
+
+def _segment_methods():
+    def default_yield(self, v, node, fr):
+        e = SegmentYield(v, node)
+        e.frame = fr
+        e.index = self.yield_ids.get(id(node), 0) if hasattr(self, 'yield_ids') else 0
+        raise e
+
+    def run_segment(self, f, frame, start, resume=None):
+        """Run the body of coroutine function f from yield number `start` (1-based; 0 = entry) to the next
+        yield / return.  `frame` holds the locals at the resumption point."""
+        node = f.node
+        ys = find_yields(node)
+        self.yield_ids = {id(y): i + 1 for i, y in enumerate(ys)}
+        from .repoindex import find_loops
+        frame.loop_ids = {id(n): i for i, n in enumerate(find_loops(node))}
+        self.segment_mode = True
+        for d in node.decorator_list:
+            self.dropped.add('decorator @' + ast.unparse(d))
+        try:
+            if start == 0:
+                self.exec_block(node.body, frame)
+            else:
+                self.resume_block(node.body, frame, ys[start - 1], resume or Resume(NONE))
+        except ReturnSignal as r:
+            return r.value
+        except PyRaise as e:
+            if not hasattr(e, 'frame'):
+                e.frame = frame
+            raise
+        return NONE
+
+    def resume_block(self, stmts, fr, target, resume):
+        for i, s in enumerate(stmts):
+            if _contains(s, target):
+                self.resume_stmt(s, fr, target, resume)
+                self.exec_block(stmts[i + 1:], fr)
+                return
+        raise Unsupported('resume target not found')
+
+    def _deliver(self, resume):
+        if resume.exc is not None:
+            raise PyRaise(resume.exc)
+        return resume.value
+
+    def resume_stmt(self, s, fr, target, resume):
+        if isinstance(s, ast.Expr):
+            if s.value is target:
+                self._deliver(resume)
+                return
+            raise Unsupported('yield nested inside an expression statement')
+        if isinstance(s, (ast.Assign, ast.AnnAssign)):
+            if s.value is target:
+                v = self._deliver(resume)
+                for tgt in (s.targets if isinstance(s, ast.Assign) else [s.target]):
+                    self.assign(tgt, v, fr)
+                return
+            raise Unsupported('yield nested inside the right-hand side of an assignment')
+        if isinstance(s, ast.Return):
+            if s.value is target:
+                raise ReturnSignal(self._deliver(resume))
+            raise Unsupported('yield nested inside a return expression')
+        if isinstance(s, ast.If):
+            if any(_contains(x, target) for x in s.body):
+                return self.resume_block(s.body, fr, target, resume)
+            if any(_contains(x, target) for x in s.orelse):
+                return self.resume_block(s.orelse, fr, target, resume)
+            raise Unsupported('yield inside an if test')
+        if isinstance(s, ast.While):
+            try:
+                try:
+                    self.resume_block(s.body, fr, target, resume)
+                except ContinueSignal:
+                    pass
+            except BreakSignal:
+                return
+            # the rest of the loop: ordinary iterations until the segment ends
+            return self.stmt_While(s, fr)
+        if isinstance(s, ast.Try):
+            try:
+                try:
+                    self.resume_block(s.body, fr, target, resume)
+                except PyRaise as e:
+                    handled = False
+                    for h in s.handlers:
+                        if self.exc_matches(e.exc, h.type, fr):
+                            handled = True
+                            saved = fr.locals.get('__current_exc__')
+                            fr.locals['__current_exc__'] = e.exc
+                            if h.name:
+                                fr.locals[h.name] = e.exc
+                            try:
+                                self.exec_block(h.body, fr)
+                            finally:
+                                fr.locals['__current_exc__'] = saved
+                            break
+                    if not handled:
+                        raise
+                else:
+                    self.exec_block(s.orelse, fr)
+            except (PyRaise, ReturnSignal, BreakSignal, ContinueSignal):
+                if s.finalbody:
+                    self.exec_block(s.finalbody, fr)
+                raise
+            else:
+                if s.finalbody:
+                    self.exec_block(s.finalbody, fr)
+            return
+        if isinstance(s, ast.For):
+            h = self.spec_funcs.get('resume_for')
+            if h is None:
+                raise Unsupported('resuming inside a for loop')
+            return h(self, s, fr, target, resume)
+        raise Unsupported('resume inside %s' % type(s).__name__)
+
+    Interp.run_segment = run_segment
+    Interp.resume_block = resume_block
+    Interp.resume_stmt = resume_stmt
+    Interp._deliver = _deliver
+    Interp.default_yield = default_yield
+
+
+_segment_methods()
